@@ -42,8 +42,11 @@ def is_bv(x):
 
 
 class Interp:
-    def __init__(self, machine, resolver=None, strict_new=True):
-        """resolver(name) -> (param_names, Body) for hex_<name> sub-routine effects."""
+    def __init__(self, machine, resolver=None, strict_new=True, literal_banks=False):
+        """resolver(name) -> (param_names, Body) for hex_<name> sub-routine effects.
+        literal_banks: READ_REG(.., false) of a register this instruction already wrote yields the committed (old) value
+        instead of being reported as ambiguous - for comparisons of two IL texts with each other (C16)."""
+        self.literal_banks = literal_banks
         self.m = machine
         self.resolver = resolver
         self.locals = {}
@@ -268,7 +271,7 @@ class Interp:
                 return self.m.read_newbank(slot)
             if slot.startswith("isa:") and slot[4] in "xyz":
                 return self.m.read_latest(slot)
-            if self.m.is_written(slot):
+            if self.m.is_written(slot) and not self.literal_banks:
                 raise Ambiguous(f"committed read of {slot} after this instruction wrote it")
             return self.m.read_committed(slot)
         if f in BIN_BV:
